@@ -65,6 +65,15 @@ Theorem C17_src_json_lookup_after_reloads : forall ps i,
   Authenticator_get_authkey i (loads_src ps []) = SOk (json_get (fold_left load ps []) i) (fold_left load ps []).
 Proof. exact src_lookup_after_loads. Qed.
 
+Theorem C17_src_memory_lookup_is_model : forall creds i, Memory_get_authkey creds i = mem_get creds i.
+Proof. exact memory_src_eq. Qed.
+Theorem C17_src_multi_lookup_is_model : forall stack i, Multi_get_authkey stack i = multi_get stack i.
+Proof. exact multi_src_eq. Qed.
+Theorem C17_src_memory_hit : forall creds i c, NoDup (map fst creds) -> In (i, Some c) creds -> Memory_get_authkey creds i = Some c.
+Proof. exact (fun creds i c H1 H2 => eq_trans (memory_src_eq creds i) (mem_hit creds i c H1 H2)). Qed.
+Theorem C17_src_multi_miss : forall stack i, Forall (fun s => s i = None) stack -> Multi_get_authkey stack i = None.
+Proof. exact (fun stack i H => eq_trans (multi_src_eq stack i) (multi_miss stack i H)). Qed.
+
 Print Assumptions C17_mem_hit.
 Print Assumptions C17_mem_miss.
 Print Assumptions C17_mem_exact.
@@ -82,3 +91,7 @@ Print Assumptions C17_multi_first.
 Print Assumptions C17_multi_miss.
 Print Assumptions C17_src_json_lookup_is_model.
 Print Assumptions C17_src_json_lookup_after_reloads.
+Print Assumptions C17_src_memory_lookup_is_model.
+Print Assumptions C17_src_multi_lookup_is_model.
+Print Assumptions C17_src_memory_hit.
+Print Assumptions C17_src_multi_miss.
